@@ -78,7 +78,9 @@ SchedClass(o) == IF o.stalled THEN "stalled" ELSE IF ~o.finished THEN "never-end
 Verdict(r, out, wire) ==
   LET o == r.obs
       ms == r.scn.msgs
-      sig == [cr |-> CrClass(ms), outcome |-> out, head |-> HeadClass(o), chunked |-> ChunkClass(o), sched |-> SchedClass(o)]
+      \* scripted: the schedule is forced step by step by the harness; otherwise the real pace of a stream served by the real session
+      pace == IF "pace" \in DOMAIN r.scn THEN r.scn.pace ELSE "scripted"
+      sig == [cr |-> CrClass(ms), outcome |-> out, head |-> HeadClass(o), chunked |-> ChunkClass(o), sched |-> SchedClass(o), pace |-> pace]
       modelEnd == drift = 0 /\ finished /\ Len(delivered) = Len(ms)
   IN [t |-> "VERDICT", id |-> r.id,
       ok |-> (out = "ok" /\ sig.head = "ok" /\ sig.chunked = "ok" /\ sig.sched = "ok"),
